@@ -93,6 +93,17 @@ impl<F: Float + SampleUniform + std::fmt::Debug, D: Hash + Copy, H: Hasher + Def
         self.nb_empty
     }
 
+    /// verification hook: raw internal state (float values, hashes, populated flags, number of empty bins)
+    #[cfg(feature = "verif-hooks")]
+    pub fn verif_raw(&self) -> (Vec<F>, Vec<u64>, Vec<bool>, i64) {
+        (
+            self.hsketch.clone(),
+            self.values.clone(),
+            self.init.clone(),
+            self.nb_empty,
+        )
+    }
+
     /// returns a reference to computed sketches of type F:Float.
     pub fn get_hsketch(&self) -> &Vec<F> {
         if self.nb_empty > 0 {
@@ -275,6 +286,17 @@ impl<F: Float + SampleUniform + std::fmt::Debug, D: Hash + Copy, H: Hasher + Def
             self.init[i] = false;
         }
         self.nb_empty = size as i64;
+    }
+
+    /// verification hook: raw internal state (float values, hashes, populated flags, number of empty bins)
+    #[cfg(feature = "verif-hooks")]
+    pub fn verif_raw(&self) -> (Vec<F>, Vec<u64>, Vec<bool>, i64) {
+        (
+            self.hsketch.clone(),
+            self.values.clone(),
+            self.init.clone(),
+            self.nb_empty,
+        )
     }
 
     /// returns a reference to computed sketches of type F:Float
